@@ -49,6 +49,45 @@ PROPS = {
         "equal the reference engine's. Exploration is the right level: the "
         "space is unbounded, the oracle is exact.",
     },
+    "C05": {
+        "flavours": ["asan"],
+        "runs": {"quick": 4000, "thorough": 150000},
+        "rule": ENGINE_RULE + "; delays include ruleset-level and plugin-level "
+        "post_action_delay, async completion and ticks placed exactly on, one "
+        "ns before and one ns after t+d",
+        "level_text": "seeded exploration of delay combinations x tick "
+        "spacings x async/detector histories on a virtual CLOCK_MONOTONIC; "
+        "oracle = (a) direct history check that no action of a ruleset "
+        "instance runs in [t, t+d) after a STOP with the effective delay d, "
+        "(b) whole-call-log equality with the reference engine (actions do "
+        "run again from t+d, detectors/preruns keep running, other rulesets "
+        "unaffected).",
+    },
+    "C11": {
+        "flavours": ["asan"],
+        "runs": {"quick": 4000, "thorough": 150000},
+        "rule": ENGINE_RULE + "; rulesets with wildcard `cgroup` patterns and "
+        "optional xattr_filter; histories create, remove (several at once), "
+        "re-create after >= 1 absent tick, tag and untag matching cgroups",
+        "level_text": "seeded exploration of cgroup membership histories; "
+        "oracle = reference model of per-cgroup instances (born at first "
+        "sight, kept while present and tagged, discarded when absent, fresh "
+        "after reappearing) each running the reference engine with its own "
+        "windows/pause/suspended chain, prerun on every tick, init args "
+        "carrying cgroup=<instance>; ASan/UBSan guard the discard path.",
+    },
+    "C06": {
+        "flavours": ["asan"],
+        "runs": {"quick": 4000, "thorough": 150000},
+        "rule": ENGINE_RULE + "; chains with ASYNC_PAUSED at every position, "
+        "detectors silent/firing/flapping during the pause, several rulesets "
+        "and ruleset-cgroup instances pausing at once",
+        "level_text": "seeded exploration of async pause patterns; oracle = "
+        "reference engine with saved context: the same action instance "
+        "resumes first and sees the same five context fields (uuid compared "
+        "through a bijection), no second chain starts meanwhile, a later "
+        "firing starts at action 0 with a fresh uuid.",
+    },
 }
 
 
